@@ -144,16 +144,44 @@ def run(prog: Program, rep: Report, tier: str) -> None:
                     mut.append(f"{f.qualname}:{n.lineno} {ast.unparse(n)[:50]}")
     rep.check(not mut, "R7.2", "no module-level container mutated on the receive path", pwhere, f"{mut}", key="R7.2|module")
     # ---- R7.3
+    # every close()/abort() call of the bridge module (whatever the receiver is called) sits in SwitcherBridge.stop or in a
+    # function only stop reaches; that stop closes transports at all is read from its interpreted paths
     closers = []
-    for m in prog.all_modules():
-        for f in m.all_functions():
-            for n in ast.walk(f.node):
-                if isinstance(n, ast.Call) and isinstance(n.func, ast.Attribute) and n.func.attr in CLOSERS:
-                    recv = ast.unparse(n.func.value)
-                    if "transport" in recv.lower():
-                        closers.append((f.key, n.lineno, recv))
-    bad3 = [x for x in closers if x[0] != "aioswitcher.bridge:SwitcherBridge.stop"]
-    rep.check(not bad3 and bool(closers), "R7.3", "only stop() closes transports", "src/aioswitcher/bridge.py", f"transport close/abort outside SwitcherBridge.stop: {bad3}" if closers else "anchor vanished: no transport.close() found at all", key="R7.3|closers")
+    for f in bm.all_functions():
+        for n in ast.walk(f.node):
+            if isinstance(n, ast.Call) and isinstance(n.func, ast.Attribute) and n.func.attr in CLOSERS:
+                closers.append((f.key, n.lineno, ast.unparse(n.func.value)))
+    stop_fi = prog.cls("aioswitcher.bridge:SwitcherBridge").find_method("stop")
+    stop_reach = {"aioswitcher.bridge:SwitcherBridge.stop"}
+    if stop_fi is not None:
+        byname_ = {f.qualname.split(".")[-1]: f for f in bm.all_functions()}
+        todo_ = [stop_fi]
+        while todo_:
+            g_ = todo_.pop()
+            for n in ast.walk(g_.node):
+                if isinstance(n, ast.Call):
+                    nm_ = n.func.attr if isinstance(n.func, ast.Attribute) else n.func.id if isinstance(n.func, ast.Name) else ""
+                    h_ = byname_.get(nm_)
+                    if h_ is not None and h_.key not in stop_reach and h_.qualname.split(".")[-1].startswith("_"):
+                        stop_reach.add(h_.key)
+                        todo_.append(h_)
+    recv_reach = set()
+    for nm_ in ("datagram_received", "error_received", "connection_lost", "connection_made"):
+        f_ = ci.find_method(nm_)
+        if f_ is not None:
+            recv_reach.add(f_.key)
+    bad3 = [x for x in closers if x[0] not in stop_reach or x[0] in recv_reach]
+    try:
+        _I3, souts3, _sfi3 = B.run_bridge_method(prog, "stop")
+        stop_closes = any(e.kind == "call" and e.target.endswith(".close") for o in souts3 for e in o.state.events)
+    except AnalysisError:
+        stop_closes = None
+    if bad3:
+        rep.bad("R7.3", "only stop() closes transports", "src/aioswitcher/bridge.py", f"close/abort outside SwitcherBridge.stop (and its private helpers): {bad3}", key="R7.3|closers")
+    elif stop_closes:
+        rep.ok("R7.3", "only stop() closes transports", "src/aioswitcher/bridge.py", f"{len(closers)} close/abort call(s), all reached from stop only")
+    else:
+        rep.undecided("R7.3", "only stop() closes transports", "src/aioswitcher/bridge.py", "no path of stop() closes a transport (anchor vanished or stop() not analysable)")
     recv_methods = [ci.find_method(n) for n in ("datagram_received", "error_received", "connection_lost")]
     reach_bad = []
     for f in [x for x in recv_methods if x is not None] + [pfi]:
